@@ -29,6 +29,20 @@ def generate(workdir, modname, order):
     path = os.path.join(workdir, modname.replace(".", "_") + "_iface.py")
     with open(path, "w") as f:
         o.to_sqlalchemy_file(f)
+    # a second ORMatic over the SAME class diagram object: the first one must not have changed what it was given
+    o2 = ORMatic(cd, alternative_mappings=list(extra.get("alternative_mappings", [])),
+                 type_mappings=dict(extra.get("type_mappings", {})))
+    o2.make_all_tables()
+    first_text = open(path).read()
+    with open(path, "w") as f:
+        o2.to_sqlalchemy_file(f)
+    again = open(path).read()
+    with open(path, "w") as f:
+        f.write(first_text)
+    if again != first_text:
+        import difflib
+        diff = list(difflib.unified_diff(first_text.splitlines(), again.splitlines(), lineterm="", n=0))[:8]
+        raise RuntimeError("generating again from the same ClassDiagram object gives another module: " + " | ".join(diff))
     return m, path
 
 
